@@ -551,6 +551,10 @@ func (p *Parser) parseOption(s *parseState, name string, option *Option, canarg 
 	} else if option.OptionalArgument {
 		option.empty()
 
+		// The option occurred, even if it declares no optional-value
+		option.isSet = true
+		option.preventDefault = true
+
 		for _, v := range option.OptionalValue {
 			err = option.Set(&v)
 
